@@ -43,6 +43,16 @@ func (g *Gen) preamble() string {
 func (g *Gen) queryFor(o *Obligation) *Query {
 	q := &Query{Name: o.Func + "#" + o.Clause, Preamble: g.preamble(), Decls: g.decls}
 	q.Assumes = append(q.Assumes, g.assumes[:o.NAssume]...)
+	// axioms over spec functions: only those whose symbols occur in this obligation's context
+	ctx := strings.Join(q.Assumes, " ") + " " + o.Goal + " " + o.Guard + " " + strings.Join(g.decls, " ")
+	for _, ax := range g.axioms {
+		for _, sym := range sfSymbols(ax) {
+			if strings.Contains(ctx, "("+sym+" ") {
+				q.Assumes = append(q.Assumes, ax)
+				break
+			}
+		}
+	}
 	q.Assumes = append(q.Assumes, o.Guard)
 	q.Goal = o.Goal
 	q.Vars = g.modelVars
@@ -91,6 +101,9 @@ func runSolver(ctx context.Context, s solverSpec, text string, dir string, id st
 	case "sat":
 		return "sat", out, ms
 	}
+	if strings.HasPrefix(first, "(error") && !strings.Contains(first, "model is not available") {
+		return "error", out, ms
+	}
 	return "unknown", out, ms
 }
 
@@ -125,7 +138,7 @@ func solveQuery(q *Query, dir, id string, timeoutS int, order int) (status, solv
 	var last res
 	for range solvers {
 		r := <-ch
-		if r.st != "unknown" {
+		if r.st == "sat" || r.st == "unsat" {
 			return r.st, r.name, r.out, total + r.ms
 		}
 		if r.ms > last.ms {
@@ -218,6 +231,10 @@ func solveAll(jobs []*job, timeoutS int, workers int, seed int, crossCheck bool)
 				case "sat":
 					r.Status = "refuted"
 					r.Model = parseModel(out, q.Vars)
+				case "error":
+					r.Status = "undecided"
+					r.Output = "SOLVER ERROR: " + r.Output
+					j.g.errs = append(j.g.errs, "malformed SMT for "+j.o.Clause+": "+truncate(out, 300))
 				default:
 					r.Status = "undecided"
 				}
@@ -245,4 +262,18 @@ type job struct {
 	o   *Obligation
 	idx int
 	res *Result
+}
+
+func sfSymbols(t string) []string {
+	var out []string
+	for i := 0; i+3 < len(t); i++ {
+		if t[i] == '(' && strings.HasPrefix(t[i+1:], "sf_") {
+			j := i + 1
+			for j < len(t) && t[j] != ' ' && t[j] != ')' {
+				j++
+			}
+			out = append(out, t[i+1:j])
+		}
+	}
+	return out
 }
